@@ -98,8 +98,9 @@ fn(RM + ".__call__", params={"scope": WWW, "receive": RECV, "send": SEND},
        # https on HTTP/2) or websocket.close; anything secure is passed through unchanged
        ("C20.redirect.http", "implies(scope['type'] == 'http' and scope['scheme'] == 'http', n_emitted('app') == 0 and n_emitted('asgi_sent') == 2 "
         "and emitted('asgi_sent')[0]['type'] == 'http.response.start' and emitted('asgi_sent')[0]['status'] == 307 and emitted('asgi_sent')[0]['headers'][0][0] == b'location')", "C20"),
-       ("C20.redirect.ws", "implies(scope['type'] == 'websocket' and scope['scheme'] == 'ws', n_emitted('app') == 0 and n_emitted('asgi_sent') >= 1 "
-        "and emitted('asgi_sent')[0]['type'] in ('websocket.http.response.start', 'websocket.close'))", "C20"),
+       # (the 307 itself is the postcondition of _send_websocket_redirect, which is called through its contract)
+       ("C20.redirect.ws", "implies(scope['type'] == 'websocket' and scope['scheme'] == 'ws', n_emitted('app') == 0 and "
+        "((call_index('_send_websocket_redirect') >= 0 and n_emitted('asgi_sent') == 0) or (call_index('_send_websocket_redirect') < 0 and n_emitted('asgi_sent') == 1 and emitted('asgi_sent')[0]['type'] == 'websocket.close')))", "C20"),
        ("C20.redirect.passthrough", "implies(not (scope['type'] == 'http' and scope['scheme'] == 'http') and not (scope['type'] == 'websocket' and scope['scheme'] == 'ws'), "
         "n_emitted('asgi_sent') == 0 and n_emitted('app') == 1 and same(emitted('app')[0][0], scope) and same(emitted('app')[0][1], receive) and same(emitted('app')[0][2], send))", "C20"),
        ("C20.redirect.no-mutation", "scope == old(scope)", "C20"),
